@@ -193,16 +193,24 @@ func checkPrefix(v *ev.Verdict, c PrefixCase) {
 	strs := strsOf(c)
 	want := naiveLCP(strs)
 	guard(v, "commonprefix:panic", func() {
+		orig := append([]string(nil), strs...)
 		got := commonprefix.Prefix(strs...)
 		if got != want {
-			v.Add(P, "commonprefix:prefix", "Prefix(%q) = %q, longest common prefix is %q", strs, got, want)
+			v.Add(P, "commonprefix:prefix", "Prefix(%q) = %q, longest common prefix is %q", orig, got, want)
 			return
 		}
-		out := append([]string(nil), strs...)
+		// Prefix only looks at its arguments (a caller that passes a slice keeps it as it was)
+		for i := range orig {
+			if strs[i] != orig[i] {
+				v.Add(P, "commonprefix:arguments-modified", "Prefix(%q...) changed the caller's slice: element %d is now %q", orig, i, strs[i])
+				return
+			}
+		}
+		out := append([]string(nil), orig...)
 		commonprefix.TrimPrefix(out...)
 		for i := range out {
-			if want+out[i] != strs[i] {
-				v.Add(P, "commonprefix:trim", "TrimPrefix(%q)[%d] = %q; expected %q with prefix %q removed", strs, i, out[i], strs[i], want)
+			if want+out[i] != orig[i] {
+				v.Add(P, "commonprefix:trim", "TrimPrefix(%q)[%d] = %q; expected %q with prefix %q removed", orig, i, out[i], orig[i], want)
 				return
 			}
 		}
